@@ -23,7 +23,7 @@ def run_case(case, R):
     ops = [tuple(o) for o in case["ops"]]
     names = [o[0] for o in ops]
     nreq = names.count("req")
-    R.nt(nreq >= 2 and any(n in ("cancel", "fin", "reset", "ans+event", "ans-part", "unsolicited") or (n == "adv" and o[1] >= 30) for n, o in zip(names, ops)))
+    R.nt(nreq >= 2 and any(n in ("cancel", "fin", "reset", "ans+event", "ans-part", "unsolicited", "close") or (n == "adv" and o[1] >= 30) for n, o in zip(names, ops)))
     for n in set(names):
         R.cls("op:" + n)
 
@@ -190,6 +190,17 @@ def run_case(case, R):
                         partial.clear()
                         conn.close(name)
                         disconnects.append((loop.time(), conn.index, name))
+                    elif name == "close":
+                        if conn is None:
+                            raise Pruned
+                        partial.clear()
+                        closer = asyncio.ensure_future(p.close())
+                        await vtime.settle(loop)
+                        disconnects.append((loop.time(), conn.index, "local-close"))
+                        if not closer.done():
+                            R.fail("C08.request-hangs", f"pairing.close() did not return at once (op {k})", how="close-hangs")
+                        elif closer.exception() is not None:
+                            R.fail("C08.wrong-error", f"pairing.close() raised {closer.exception()!r}", exc=type(closer.exception()).__name__)
                     elif name == "adv":
                         before = loop.time()
                         await asyncio.sleep(op[1])
@@ -291,7 +302,7 @@ def pipelined_cases(draw):
     return {"kinds": draw(st.lists(st.sampled_from(["H", "H", "E"]), min_size=2, max_size=6)), "cuts": draw(st.lists(st.integers(1, 2000), max_size=5))}
 
 
-ALPHABET_QUICK = [("req", 0), ("req", 1), ("ans",), ("ans-split", 5), ("ans+event", 11), ("ans-part", 9), ("ans-rest",), ("event",), ("cancel", 0),
+ALPHABET_QUICK = [("req", 0), ("req", 1), ("close",), ("ans",), ("ans-split", 5), ("ans+event", 11), ("ans-part", 9), ("ans-rest",), ("event",), ("cancel", 0),
                   ("adv", 29.9), ("adv", 31), ("fin",), ("reset",), ("unsolicited",)]
 ALPHABET_FULL = ALPHABET_QUICK + [("req", 2), ("cancel", 1), ("adv", 0.1), ("adv", 30), ("ans-split", 60), ("ans+event", 2)]
 
@@ -314,7 +325,7 @@ def histories(draw):
     ops = []
     for _ in range(n):
         name = draw(st.sampled_from(["req", "req", "req", "ans", "ans", "ans-split", "ans+event", "ans-part", "ans-rest", "event", "cancel",
-                                     "adv", "fin", "reset", "unsolicited"]))
+                                     "adv", "fin", "reset", "unsolicited", "close"]))
         if name in ("req", "cancel"):
             ops.append([name, draw(st.integers(0, NCALLERS - 1))])
         elif name in ("ans-split", "ans+event", "ans-part"):
@@ -330,8 +341,8 @@ SPEC = Property(
     P, "exploration",
     rule=("histories over {caller i issues a read with a unique id, accessory answers the oldest pending request whole / in pieces / with an "
           "event glued behind it / only partly (rest later), event, caller cancelled, advance 0.1/29.9/30/31 s, peer FIN, peer reset, "
-          "unsolicited response while idle} with up to 3 concurrent callers on an established secure session; bounded exhaustive DFS "
-          "(depth 4 over 14 events in quick, depth 5 over 20 events in thorough; histories with a disabled event are pruned and counted) "
+          "unsolicited response while idle, local close of the pairing} with up to 3 concurrent callers on an established secure session; bounded exhaustive DFS "
+          "(depth 4 over 15 events in quick, depth 5 over 21 events in thorough; histories with a disabled event are pruned and counted) "
           "and generated histories of 3..30 events. Non-trivial: >=2 requests and at least one of cancel, timeout, FIN/reset, partial "
           "response, event behind a response, unsolicited response."),
     layers=[
